@@ -127,7 +127,13 @@ var prop = vh.Define("C02", "roundtrip", func(c Case, r *vh.R) {
 	orig := sxgkit.CanonOf(e)
 	payload := s.Payload()
 	fetch := sxgkit.Fetcher(s.Fixture)
-	times := []int64{s.Date, s.Date + (s.Expires-s.Date)/2, s.Expires, s.Date - 1, s.Expires + 1}
+	times := []int64{s.Date, s.Date + (s.Expires-s.Date)/2, s.Expires, s.Date - 1, s.Expires + 1, s.Date, s.Expires - 1, s.Date - 1, s.Expires}
+	// sub-second parts: "every instant of [date, expires]", not every whole second
+	nsecs := []int64{0, 0, 0, 0, 0, 1, 999_999_999, 999_999_999, 1}
+	inside := func(i int) bool {
+		t, ns := times[i], nsecs[i]
+		return t >= s.Date && (t < s.Expires || (t == s.Expires && ns == 0))
+	}
 
 	type verdict struct {
 		ok bool
@@ -135,7 +141,7 @@ var prop = vh.Define("C02", "roundtrip", func(c Case, r *vh.R) {
 	}
 	before := make([]verdict, len(times))
 	for i, t := range times {
-		p, ok := sxgkit.Verify(e, t, 0, fetch)
+		p, ok := sxgkit.Verify(e, t, nsecs[i], fetch)
 		before[i] = verdict{ok, p}
 	}
 
@@ -244,7 +250,7 @@ var prop = vh.Define("C02", "roundtrip", func(c Case, r *vh.R) {
 	sxgkit.Disturb()
 	after := make([]verdict, len(times))
 	for i, t := range times {
-		p, ok := sxgkit.Verify(e2, t, 0, fetch)
+		p, ok := sxgkit.Verify(e2, t, nsecs[i], fetch)
 		after[i] = verdict{ok, p}
 	}
 	sxgkit.Disturb()
@@ -255,19 +261,19 @@ var prop = vh.Define("C02", "roundtrip", func(c Case, r *vh.R) {
 			r.Failf("verdict-changed", "Verify at t=%d (date=%d expires=%d): before write %v, after read %v; log after: %s", t, s.Date, s.Expires, before[i].ok, ok, lg)
 			return
 		}
-		inside := t >= s.Date && t <= s.Expires
+		inside := inside(i)
 		if ok {
 			if !bytes.Equal(p, payload) || !bytes.Equal(before[i].p, payload) {
 				r.Failf("payload-changed", "Verify at t=%d returned a payload different from the original un-encoded payload", t)
 				return
 			}
 			if !inside {
-				r.Failf("window", "Verify succeeded at t=%d outside [%d,%d]", t, s.Date, s.Expires)
+				r.Failf("window", "Verify succeeded at t=%d.%09d outside [%d,%d]", t, nsecs[i], s.Date, s.Expires)
 				return
 			}
 		} else if inside && c.Conforming {
 			_, _, lg := sxgkit.VerifyLog(e2, t, fetch)
-			r.Failf("verify-rejects-own-output", "conforming exchange does not verify at t=%d in [%d,%d]: %s", t, s.Date, s.Expires, lg)
+			r.Failf("verify-rejects-own-output", "conforming exchange does not verify at t=%d.%09d in [%d,%d]: %s", t, nsecs[i], s.Date, s.Expires, lg)
 			return
 		}
 	}
